@@ -74,9 +74,27 @@ def _ilist(a):
 # (1) index maps
 
 
+def _attributes(ctx, lat, ref):
+    """sizes / order of the instance agree with the harness's own expectation (for configurations reached through a
+    history of enlarge_mps_unit_cell: old order repeated along x, sizes multiplied; helical: MPS unit cell * factor)"""
+    rows = [tuple(int(v) for v in r) for r in lat.order]
+    if ref.helical:
+        ctx.prove(int(lat.N_sites) == ref.Nh and int(lat.N_cells) * ref.Lu == ref.Nh, 'HelicalLattice: N_sites / N_cells of the MPS unit cell')
+        ctx.prove(ref.N % ref.Nh == 0 and ref.N >= ref.Nh, 'HelicalLattice: regular lattice holds a whole number of MPS unit cells')
+        ctx.prove(rows == ref.order[:ref.Nh], 'HelicalLattice: order == first N_sites rows of the regular order')
+        ctx.prove(tuple(lat.Ls) == tuple(lat.regular_lattice.Ls) == ref.Ls, 'HelicalLattice: Ls of the regular lattice')
+        return
+    ctx.prove(rows == ref.order, 'order (after the history: old order repeated along x)')
+    ctx.prove(tuple(int(v) for v in lat.Ls) == ref.Ls and tuple(lat.shape) == ref.Ls + (ref.Lu, ), 'Ls / shape')
+    ctx.prove(int(lat.N_sites) == ref.N and int(lat.N_rings) == ref.Ls[0], 'N_sites / N_rings')
+    if not ref.irregular:
+        ctx.prove(int(lat.N_cells) == int(np.prod(ref.Ls)) and int(lat.N_sites_per_ring) * ref.Ls[0] == ref.N, 'N_cells / N_sites_per_ring')
+
+
 def idx_case(ctx, cfg):
     lat, ref = _setup(ctx, cfg)
     N, dim, Ls = ref.N, ref.dim, ref.Ls
+    _attributes(ctx, lat, ref)
     # the order is an enumeration of the sites (configuration level, concrete)
     ctx.prove(len(set(ref.order)) == N, 'order: rows are distinct sites')
     ctx.prove(all(0 <= r[a] < Ls[a] for r in ref.order for a in range(dim)) and all(0 <= r[-1] < ref.Lu for r in ref.order),
@@ -304,7 +322,9 @@ def couplings_strength_case(ctx, cfg):
     Lt.same_multiset(ctx, got, exp, 'possible_couplings(strength)')
 
 
-_THIRD = {1: [[1], [-1], [2]], 2: [[0, 1], [1, 0], [-1, 1]]}
+_THIRD = {1: [[1], [-1], [2]], 2: [[0, 1], [1, 0], [-1, -1]]}
+# displacement of the FIRST operator (no operator has to sit at the origin: all-positive and all-negative sets occur)
+_FIRST = {1: [[0], [1], [-1]], 2: [[0, 0], [1, 0], [-1, -1]]}
 
 
 def _u_triples(Lu):
@@ -323,14 +343,16 @@ def multi_case(ctx, cfg, strength=False, exceed=False, unbounded=(0, )):
     d1 = _sym_dx(ctx, ref, 'd', bound=1 if ref.dim > 1 else 2, unbounded=() if strength else tuple(unbounded))
     third = _THIRD[ref.dim]
     d2 = third[ctx.choice('third', len(third))]
+    first = _FIRST[ref.dim]
+    d0 = first[ctx.choice('first', len(first))]
     if strength:
         tr = [tr[ctx.choice('u', len(tr))]]  # the zero / non-zero forks of the strengths would multiply over the triples
     for u in tr:
-        _multi_one(ctx, lat, ref, u, d1, d2, strength, exceed)
+        _multi_one(ctx, lat, ref, u, d0, d1, d2, strength, exceed)
 
 
-def _multi_one(ctx, lat, ref, u, d1, d2, strength, exceed):
-    ops_spec = [([0] * ref.dim, u[0]), (d1, u[1]), (d2, u[2])]
+def _multi_one(ctx, lat, ref, u, d0, d1, d2, strength, exceed):
+    ops_spec = [(list(d0), u[0]), (d1, u[1]), (d2, u[2])]
     ops = [('A', Lt.ivec(ctx, d), uu) for d, uu in ops_spec]
     exp_rows, exp_shape = Lt.spec_multi_couplings(ctx, ref, ops_spec)
     if exceed != any(s < 0 for s in exp_shape):
@@ -523,7 +545,9 @@ def _cfg(cls, Ls, order='default', bc=None, bc_MPS='finite', wrap=None, **kw):
 def _name(c):
     w = c.get('wrap') or {}
     o = c['order'] if isinstance(c['order'], str) else '/'.join(str(x) for x in c['order'])
-    return f"{w.get('kind', '')}{c['cls']}{'x'.join(map(str, c['Ls']))},{o},bc={'/'.join(map(str, c['bc']))},{c['bc_MPS']}"
+    h = ''.join(f"+{op[0]}{op[1]}" for op in (c.get('history') or []))
+    k = w.get('kind', '') + (str(w['N_unit_cells']) if 'N_unit_cells' in w else '')
+    return f"{k}{c['cls']}{'x'.join(map(str, c['Ls']))}{h},{o},bc={'/'.join(map(str, c['bc']))},{c['bc_MPS']}"
 
 
 ORDERS = {
@@ -599,7 +623,20 @@ def wrapped_configurations(tier):
     out.append(_cfg('Chain', [3], 'default', ['open'], 'finite', wrap=dict(kind='multispecies', n=2)))
     out.append(_cfg('Square', [2, 2], 'snake', ['periodic', 'open'], 'infinite', wrap=dict(kind='multispecies', n=2)))
     out.append(_cfg('Honeycomb', [2, 2], 'default', ['periodic', 1], 'infinite', wrap=dict(kind='multispecies', n=2)))
+    # configurations reached through a history of in-place public methods (enlarge_mps_unit_cell): factors that do not /
+    # do make the underlying regular lattice grow (helical), plain infinite lattices
+    E = lambda *f: dict(history=[['enlarge', k] for k in f])  # noqa
+    out.append(_cfg('Square', [2, 3], 'default', ['periodic', -1], 'infinite', wrap=dict(kind='helical', N_unit_cells=1), **E(2)))
+    out.append(_cfg('Square', [2, 3], 'default', ['periodic', -1], 'infinite', wrap=dict(kind='helical', N_unit_cells=2), **E(2)))
+    out.append(_cfg('Honeycomb', [2, 2], 'Cstyle', ['periodic', -1], 'infinite', wrap=dict(kind='helical', N_unit_cells=1), **E(2)))
+    out.append(_cfg('Chain', [2], 'default', ['periodic'], 'infinite', **E(2)))
+    out.append(_cfg('Ladder', [1], 'default', ['periodic'], 'infinite', **E(3)))
+    out.append(_cfg('Square', [1, 2], 'snake', ['periodic', 1], 'infinite', **E(2)))
     if tier == 'thorough':
+        out.append(_cfg('Square', [4, 3], 'default', ['periodic', -1], 'infinite', wrap=dict(kind='helical', N_unit_cells=1), **E(2, 2)))
+        out.append(_cfg('Square', [2, 3], 'default', ['periodic', -1], 'infinite', wrap=dict(kind='helical', N_unit_cells=1), **E(3)))
+        out.append(_cfg('Honeycomb', [1, 2], 'default', ['periodic', 'periodic'], 'infinite', **E(2, 2)))
+        out.append(_cfg('Kagome', [1, 2], 'rings', ['periodic', 'open'], 'infinite', **E(2)))
         out.append(_cfg('Square', [4, 3], 'default', ['periodic', -1], 'infinite', wrap=dict(kind='helical', N_unit_cells=3)))
         out.append(_cfg('Kagome', [2, 2], 'Cstyle', ['periodic', -1], 'infinite', wrap=dict(kind='helical', N_unit_cells=1)))
         out.append(_cfg('Triangular', [3, 3], 'default', ['open', 'open'], 'finite',
@@ -625,7 +662,7 @@ def CASES(tier, seed):
         cases.append(dict(name=f'{kind}[{_name(c)}]', fn=fn, params=dict(cfg=c, **params), opts=O))
 
     for c in cfgs + wr:
-        kind = (c.get('wrap') or {}).get('kind')
+        kind = (c.get('wrap') or {}).get('kind') or ('history' if c.get('history') else None)
         default = c['order'] == 'default' or bool(kind)
         add('idx', 'idx_case', c)
         add('latidx', 'latidx_case', c)
